@@ -109,7 +109,15 @@ def gen_cases(seed, chunk, n, tier):
                         abs(float(t) - round(float(t))) > 1e-9 for b in sv.blocks.values() for t in np.asarray(b)):
                     orc = f"singular values {got} are not the exactly known ones {sorted(want, reverse=True)}"
             elif kind == "svals":
-                u, sv, vh = sr.linalg.svd(x)
+                # the spectrum as returned by svd and by the untruncated forms of svd_truncated
+                via = rng.choice(["svd", "svd", "trunc_default", "trunc_rank", "trunc_rank+3"])
+                if via == "svd":
+                    u, sv, vh = sr.linalg.svd(x)
+                else:
+                    rank = sum(min(np.shape(b)) for b in x.blocks.values())
+                    kw = {} if via == "trunc_default" else {"max_bond": rank + (3 if via.endswith("+3") else 0)}
+                    u, sv, vh = sr.linalg.svd_truncated(x.copy(), absorb=None, **kw)
+                meta["via"] = via
                 got = np.sort(np.concatenate([np.asarray(b, dtype=float) for b in sv.blocks.values()]))[::-1]
                 D = oracle.dense(x)
                 ref = np.linalg.svd(D, compute_uv=False)
